@@ -9,6 +9,7 @@ import (
 	"go/ast"
 	"go/parser"
 	"go/token"
+	"go/types"
 	"os"
 	"path/filepath"
 	"sort"
@@ -158,6 +159,52 @@ func main() {
 			}
 		}
 	}
+	// CLI exit sites: every os.Exit call of internal/cmd with its function, nearest enclosing `if` condition
+	// and argument, as source text
+	type exitSite struct{ fn, guard, arg string }
+	var exits []exitSite
+	for _, name := range []string{"check.go", "run.go", "root.go"} {
+		f, err := parser.ParseFile(fset, filepath.Join(repo, "internal", "cmd", name), nil, 0)
+		must(err)
+		for _, d := range f.Decls {
+			fd, ok := d.(*ast.FuncDecl)
+			if !ok || fd.Body == nil {
+				continue
+			}
+			var stack []ast.Node
+			ast.Inspect(fd.Body, func(n ast.Node) bool {
+				if n == nil {
+					stack = stack[:len(stack)-1]
+					return true
+				}
+				stack = append(stack, n)
+				call, ok := n.(*ast.CallExpr)
+				if !ok {
+					return true
+				}
+				sel, ok := call.Fun.(*ast.SelectorExpr)
+				if !ok || sel.Sel.Name != "Exit" {
+					return true
+				}
+				if id, ok := sel.X.(*ast.Ident); !ok || id.Name != "os" {
+					return true
+				}
+				guard := ""
+				for i := len(stack) - 1; i >= 0; i-- {
+					if ifs, ok := stack[i].(*ast.IfStmt); ok {
+						guard = types.ExprString(ifs.Cond)
+						break
+					}
+				}
+				arg := ""
+				if len(call.Args) == 1 {
+					arg = types.ExprString(call.Args[0])
+				}
+				exits = append(exits, exitSite{fd.Name.Name, guard, arg})
+				return true
+			})
+		}
+	}
 	q := func(s string) string { return strconv.Quote(s) }
 	ql := func(l []string) string {
 		var parts []string
@@ -173,7 +220,7 @@ func main() {
 	}
 	sort.Strings(sevKeys)
 	var b strings.Builder
-	b.WriteString("/-\n  Model/Tables.lean — REGENERATED from /repo/internal/analysis/{check.go,diagnostic_kind.go} by\n  /verif/extract on every run of bin/check (do not edit): builtin signatures, allowed types,\n  diagnostic severities.\n-/\nnamespace NS\n\n")
+	b.WriteString("/-\n  Model/Tables.lean — REGENERATED from /repo/internal/analysis/{check.go,diagnostic_kind.go} and /repo/internal/cmd by\n  /verif/extract on every run of bin/check (do not edit): builtin signatures, allowed types,\n  diagnostic severities, CLI exit sites.\n-/\nnamespace NS\n\n")
 	fmt.Fprintf(&b, "def allowedTypes : List String := %s\n\n", ql(allowed))
 	b.WriteString("/-- (name, context, parameter types, return type) ; context: \"statement\" | \"origin\" -/\ndef builtinsTable : List (String × String × List String × String) := [\n")
 	for i, bi := range builtins {
@@ -198,6 +245,14 @@ func main() {
 			sep = ""
 		}
 		fmt.Fprintf(&b, "  (%s, %d)%s\n", q(k), severities[k], sep)
+	}
+	b.WriteString("]\n\n/-- os.Exit sites of internal/cmd: (function, nearest enclosing if-condition, argument), as source text -/\ndef cliExitTable : List (String × String × String) := [\n")
+	for i, e := range exits {
+		sep := ","
+		if i == len(exits)-1 {
+			sep = ""
+		}
+		fmt.Fprintf(&b, "  (%s, %s, %s)%s\n", q(e.fn), q(e.guard), q(e.arg), sep)
 	}
 	b.WriteString("]\n\n")
 	b.WriteString(`def builtinDocs (name : String) : String :=
